@@ -18,6 +18,10 @@ fn oracle_rel(a: &[f64], b: &[f64], eps: f64, rel: f64) -> bool {
 }
 
 fn value(r: &mut Rng) -> f64 {
+    if r.chance(0.02) {
+        // non-finite contents: the relation is still the conjunction of f64's own relations
+        return r.pick(&[f64::NAN, f64::INFINITY, f64::NEG_INFINITY]);
+    }
     match r.below(8) {
         0 => 0.0,
         1 => r.small_int(5),
@@ -135,7 +139,7 @@ where
     let n = r.usize(1, 6);
     let ends: Vec<f64> = {
         let mut v: Vec<f64> = (0..n).map(|_| value(r)).collect();
-        v.sort_by(|a, b| a.partial_cmp(b).unwrap());
+        v.sort_by(|a, b| a.total_cmp(b));
         v
     };
     let coeffs: Vec<Vec<f64>> = (0..n).map(|_| (0..T::LEN).map(|_| value(r)).collect()).collect();
